@@ -441,6 +441,43 @@ scell!(CFlatten, SFlatten,
     print: |v| { let mut a = print_inner(&v.inner); if let Some(o) = &v.other { a.push(format!("--other={}", o)); } a },
     update_model: |v, m| { if cli(m, "name") { v.inner.name = m.get_one::<String>("name").cloned(); } if cli(m, "force") { v.inner.force = m.get_flag("force"); } if cli(m, "other") { v.other = m.get_one::<String>("other").cloned(); } });
 
+// a flattened struct with a *required* field, plain and boxed: the update command must not require it
+#[derive(Args, Debug, PartialEq, Clone)]
+struct InnerReq {
+    #[arg(long)]
+    name: String,
+}
+
+#[derive(Parser, Debug, PartialEq, Clone)]
+#[command(name = "prog")]
+struct SReqFlatten {
+    #[command(flatten)]
+    inner: InnerReq,
+    #[arg(long)]
+    other: Option<String>,
+}
+
+#[derive(Parser, Debug, PartialEq, Clone)]
+#[command(name = "prog")]
+struct SBoxFlatten {
+    #[command(flatten)]
+    inner: Box<InnerReq>,
+    #[arg(long)]
+    other: Option<String>,
+}
+
+scell!(CReqFlatten, SReqFlatten,
+    model: |m| Some(SReqFlatten { inner: InnerReq { name: m.get_one::<String>("name").cloned()? }, other: m.get_one::<String>("other").cloned() }),
+    domain: vec![SReqFlatten { inner: InnerReq { name: s("n") }, other: None }, SReqFlatten { inner: InnerReq { name: s("n") }, other: Some(s("o")) }],
+    print: |v| { let mut a = vec![format!("--name={}", v.inner.name)]; if let Some(o) = &v.other { a.push(format!("--other={}", o)); } a },
+    update_model: |v, m| { if cli(m, "name") { if let Some(n) = m.get_one::<String>("name") { v.inner.name = n.clone(); } } if cli(m, "other") { v.other = m.get_one::<String>("other").cloned(); } });
+
+scell!(CBoxFlatten, SBoxFlatten,
+    model: |m| Some(SBoxFlatten { inner: Box::new(InnerReq { name: m.get_one::<String>("name").cloned()? }), other: m.get_one::<String>("other").cloned() }),
+    domain: vec![SBoxFlatten { inner: Box::new(InnerReq { name: s("n") }), other: None }, SBoxFlatten { inner: Box::new(InnerReq { name: s("n") }), other: Some(s("o")) }],
+    print: |v| { let mut a = vec![format!("--name={}", v.inner.name)]; if let Some(o) = &v.other { a.push(format!("--other={}", o)); } a },
+    update_model: |v, m| { if cli(m, "name") { if let Some(n) = m.get_one::<String>("name") { v.inner.name = n.clone(); } } if cli(m, "other") { v.other = m.get_one::<String>("other").cloned(); } });
+
 scell!(COptFlatten, SOptFlatten,
     model: |m| Some(SOptFlatten { inner: if cli(m, "name") || cli(m, "force") { Some(model_inner(m)) } else { None }, other: m.get_one::<String>("other").cloned() }),
     domain: vec![SOptFlatten { inner: None, other: None }, SOptFlatten { inner: Some(Inner { name: Some(s("n")), force: false }), other: Some(s("o")) }, SOptFlatten { inner: Some(Inner { name: None, force: true }), other: None }],
@@ -482,7 +519,7 @@ fn corpus() -> Vec<Box<dyn Cell>> {
         Box::new(CVecStr), Box::new(CVecU8), Box::new(CVecPos), Box::new(CVecN), Box::new(CVecEnum),
         Box::new(COptVecStr), Box::new(COptVecN0),
         Box::new(CGlobal), Box::new(CDefMissing),
-        Box::new(CSetFalse), Box::new(CDefVals), Box::new(CReqVec), Box::new(COptBool), Box::new(CShortOnly), Box::new(CReqPosVec), Box::new(CCountU8Def), Box::new(CScalarAppend), Box::new(CScalarN), Box::new(CReqScalarN),
+        Box::new(CSetFalse), Box::new(CDefVals), Box::new(CReqVec), Box::new(COptBool), Box::new(CShortOnly), Box::new(CReqPosVec), Box::new(CCountU8Def), Box::new(CReqFlatten), Box::new(CBoxFlatten), Box::new(CScalarAppend), Box::new(CScalarN), Box::new(CReqScalarN),
         Box::new(CFlatten), Box::new(COptFlatten), Box::new(CSub), Box::new(COptSub), Box::new(CFlatSub),
     ]
 }
